@@ -7,6 +7,7 @@ import typing
 
 import six
 
+from . import errors
 from .path import abspath, join, normpath, relpath
 from .wrapfs import WrapFS
 
@@ -50,6 +51,12 @@ class SubFS(WrapFS[_F], typing.Generic[_F]):
 
     def delegate_path(self, path):
         # type: (Text) -> Tuple[_F, Text]
+        # the parent only sees the normalised path: refuse its invalid
+        # characters here, as `FS.validatepath` does, before they can be
+        # normalised away
+        invalid_chars = self._wrap_fs.getmeta().get("invalid_path_chars")
+        if invalid_chars and set(path).intersection(invalid_chars):  # type: ignore
+            raise errors.InvalidCharsInPath(path)
         _path = join(self._sub_dir, relpath(normpath(path)))
         return self._wrap_fs, _path
 
